@@ -291,10 +291,17 @@ class DCase(coqgen.Case):
     `prefix_rank` (C04): the obligation at component c uses component c[:prefix_rank] of F."""
 
     def __init__(self, name, F, out, variation, variation2=None, nonzero=(), note=None, comps=None,
-                 prefix_rank=None, spatial=False, extra_terms=()):
+                 prefix_rank=None, spatial=False, extra_terms=(), part2=None):
         ctx = ufl2coq.Ctx()
         named = {"F": F}
         hyps = []
+        if part2 is not None:
+            # out = expansion of (derivative node 1) + / * (derivative node 2): G is the derivation of
+            # node 1 (variation), H the one of node 2 (part2[1]); spec = G(den F) (+|*) H(den F2)
+            assert variation2 is None
+            variation2 = part2[1]
+            named["F2"] = part2[0]
+            extra_terms = tuple(extra_terms) + (part2[0],)
         terms = sorted_terminals(F, out, *variation.values(), *(variation2 or {}).values(), *extra_terms)
         for t in terms:
             ctx.term(t)
@@ -329,6 +336,9 @@ class DCase(coqgen.Case):
             hyps.append(f"DEN s rho {{N{k}}} [] <> z0")
         inner = f"DEN s rho {name}_F " + ("{c}" if prefix_rank is None else f"(firstn {prefix_rank} {{c}})")
         spec = f"G ({inner})" if variation2 is None else f"H (G ({inner}))"
+        if part2 is not None:
+            op = "add" if part2[2] == "sum" else "mul"
+            spec = f"{op} (G ({inner})) (H (DEN s rho {name}_F2 {{c}}))"
         super().__init__(name, out=out, spec=spec, hyps=hyps, comps=comps, note=note, ctx=ctx,
                          tactic=tactic(nrw, second=variation2 is not None, spatial=spatial), named=named)
         self.F = F
@@ -465,10 +475,13 @@ def _complex_safe(*exprs):
     return True
 
 
-def derivative_oracle(F, out, variation, trials=20, seed=0, nv=2, prefix_rank=None, variation2=None):
+def derivative_oracle(F, out, variation, trials=20, seed=0, nv=2, prefix_rank=None, variation2=None,
+                      part2=None):
     """Independent definition of the derivative: evaluate F with every terminal T replaced by
     T + tau * variation(T) on jets with an extra variable tau, take d/dtau at tau = 0 (twice, with
     a second variable, for `variation2`), compare with the evaluated `out`.
+    `part2 = (F2, variation_of_part_2, "sum" | "prod")`: `out` is the expansion of an expression with
+    two derivative nodes; the true value is dF (+ or *) dF2, each with its own variation.
     Returns a JSON-able witness of a mismatch, or None."""
     import random
 
@@ -484,6 +497,7 @@ def derivative_oracle(F, out, variation, trials=20, seed=0, nv=2, prefix_rank=No
             super().__init__(nv=NV, order=ORDER, seed=seed, positive=positive)
             self.perturb = False
             self.complex_mode = False
+            self.active = list(enumerate([variation] + ([variation2] if variation2 is not None else [])))
 
         def field(self, key, constant=False):
             if key in self.cache:
@@ -502,7 +516,7 @@ def derivative_oracle(F, out, variation, trials=20, seed=0, nv=2, prefix_rank=No
             base = super().value(t, comp, side)
             if not self.perturb:
                 return base
-            for k, var in enumerate([variation] + ([variation2] if variation2 is not None else [])):
+            for k, var in self.active:
                 v = var.get(t)
                 if v is None:
                     continue
@@ -523,7 +537,8 @@ def derivative_oracle(F, out, variation, trials=20, seed=0, nv=2, prefix_rank=No
 
     from ufl.algorithms.apply_algebra_lowering import apply_algebra_lowering
     F = apply_algebra_lowering(F)          # inner/outer: make the conjugations explicit
-    use_complex = _complex_safe(F, out)
+    F2 = apply_algebra_lowering(part2[0]) if part2 is not None else None
+    use_complex = _complex_safe(F, out) and (F2 is None or _complex_safe(F2))
     if use_complex:
         _install_complex_eval()
     comps = comps_of(out.ufl_shape)
@@ -540,6 +555,14 @@ def derivative_oracle(F, out, variation, trials=20, seed=0, nv=2, prefix_rank=No
                     b = pyden.evaluate(F, env, rho, cf)
                     for k in range(ntau):
                         b = b.diff(nv + k)
+                    if part2 is not None:
+                        keep = env.active
+                        env.active = [(0, part2[1])]
+                        try:
+                            b2 = pyden.evaluate(F2, env, rho, cf).diff(nv)
+                        finally:
+                            env.active = keep
+                        b = b + b2 if part2[2] == "sum" else b * b2
                     env.perturb = False
                 except (ZeroDivisionError, ValueError, OverflowError):
                     env.perturb = False
